@@ -352,6 +352,30 @@ def _shape_stats(ap: dict) -> dict:
     return {"depth": depth, "ctrl_cross": cross}
 
 
+def _shared_instances(L, ap: dict) -> list[str]:
+    """Which of the round-10 rejection theorems the abstract program instantiates: a graph held by two
+    different reachable nodes; an Argument requested by two different reachable graphs."""
+    out = []
+    try:
+        reach = L.ap_reachable(ap)
+        holders: dict[int, set[int]] = {}
+        for n in reach:
+            for g in ap["nodes"][n]["s"]:
+                holders.setdefault(g, set()).add(n)
+        if any(len(h) > 1 for h in holders.values()):
+            out.append("shared_body_rejected")
+        seen: dict[int, int] = {}
+        for g in [0] + sorted(holders):
+            for a in set(ap["graphs"][g]["args"] or []):
+                if a in seen and seen[a] != g:
+                    out.append("shared_argument_rejected")
+                    return out
+                seen[a] = g
+    except Exception:  # noqa: BLE001 - malformed abstract program: no instance claimed
+        pass
+    return out
+
+
 def _candidate(table: dict, key: str, size: int, case: dict, what: str, keep: int = 4):
     """Per key: the `keep` smallest cases without and the `keep` smallest with a `before` list."""
     pools = table.setdefault(key, ([], []))
@@ -580,6 +604,13 @@ def run(ck: core.Check, prove: bool = True):
         ck.lean(["SpoxModel.Props.C04"], audit="SpoxModel.Audit.C04")
         if ck.thorough:
             ck.leanchecker(["SpoxModel.Props.C04"])
+    # round 10: `iterative_dfs` itself against the model's `visit` on explicit generated graphs
+    try:
+        from harness import lib_dfstie
+
+        lib_dfstie.run_tie(ck, ck.pick(1500, 12000) * (3 if getattr(ck, "escalated", False) else 1))
+    except Exception as e:  # noqa: BLE001
+        ck.broken("correspondence", "dfs tie could not run", f"{type(e).__name__}: {e}"[:300])
     ck.trusted_base += [
         "hand-written model Model/BuildAlg.lean of spox._build.Builder (tie H: exact correspondence on every run)",
         "onnx.checker's structural rule (modelled by BuildAlg.structOk, compared with the real checker on every built case)",
@@ -719,6 +750,15 @@ def run(ck: core.Check, prove: bool = True):
             else:
                 if not m.get("wf"):
                     stats["wf_false"] += 1
+                # round 10: generated programs that instantiate the hypotheses of `shared_body_rejected` /
+                # `shared_argument_rejected` (computed here on the abstract program): neither side may build them
+                for which in _shared_instances(L, ap):
+                    ti = stats.setdefault("theorem_instances", {})
+                    ti[which] = ti.get(which, 0) + 1
+                    if m.get("wf") and m.get("ok"):
+                        mismatch(f"{which}: the driver's model builds a program the theorem excludes", ap, r["verdict"], "ok")
+                    if r["verdict"] == "ok":
+                        mismatch(f"{which}: the real build accepts a program the theorem excludes", ap, "ok", L.model_verdict(m))
                 mverd = L.model_verdict(m)
                 if mverd != r["verdict"]:
                     mismatch("error-class", ap, r["verdict"], mverd)
